@@ -6,7 +6,7 @@ CONSTANTS
   MaxInit = 1
   EarlyForget = FALSE
   SwallowList = FALSE
-  Flags = {"RouteReplace", "RouteDel", "LinkList", "RouteList", "LinkByName", "NewNetlink", "LinkByNameNotFound", "RouteListEINTR"}
+  Flags = {"RouteReplace", "RouteDel", "LinkList", "RouteList", "LinkByName", "NewNetlink", "LinkByNameNotFound"}
   MaxEnv = 2
   MaxFail = 1
 INIT Init
